@@ -84,7 +84,9 @@ Inductive c04_defect :=
   | D4FlatOneofRemarshal    (* oneof_discriminator.go:366: raw[name] = json.Marshal(variant) read by protojson *)
   | D4UnwrapSiblingNonFinite (* unwrap.go:453-522,783-982: json.Marshal of NaN / Inf fails *)
   | D4UnwrapSiblingNegZero  (* unwrap.go:951-982: `x.F != 0` drops -0.0 *)
-  | D4EnumCodecUnknown.     (* enum_encoding.go:142-178: an undefined number is written as "99" and not read back *)
+  | D4EnumCodecUnknown      (* enum_encoding.go:142-178: an undefined number is written as "99" and not read back *)
+  | D4EmptyNullEpochTs.     (* empty_behavior.go: NULL on a Timestamp field: the epoch has proto.Size 0, is written as null,
+                               read back as {} and protojson rejects {} for a Timestamp *)
 
 Definition c04_defect_str (d : c04_defect) : str :=
   match d with
@@ -96,6 +98,7 @@ Definition c04_defect_str (d : c04_defect) : str :=
   | D4UnwrapSiblingNonFinite => s "unwrap-sibling-nonfinite-float"
   | D4UnwrapSiblingNegZero => s "unwrap-sibling-negative-zero"
   | D4EnumCodecUnknown => s "enum-codec-unknown-number"
+  | D4EmptyNullEpochTs => s "empty-null-epoch-timestamp"
   end.
 
 Fixpoint enum_nums (v : fval) : list Z :=
@@ -232,6 +235,10 @@ Definition local_defects (md : message) (m : mval) : list c04_defect :=
               | None => []
               end
             else []) (m_oneofs md)
+      | Own FtEmpty =>
+          if existsb (fun f => match empty_of f, mget m (f_name f) with
+                               | Some EBNull, Some (FM []) => is_timestamp (f_kind f)
+                               | _, _ => false end) (m_fields md) then [D4EmptyNullEpochTs] else []
       | Own FtUnwrapMap => unwrap_sibling_defects md m
       | Own FtUnwrapRoot =>
           if existsb (fun e => match find_field (m_fields md) (fst e) with
